@@ -825,18 +825,21 @@ pub fn run(cfg: &Cfg, rep: &mut Report) {
                 continue;
             }
             // classification costs a few renders: bound it, the rest keep the feature's own signature
-            let (sig, shrunk) = if classified < 6000 {
+            let (sig, shrunk) = if classified < 200_000 {
                 classified += 1;
                 classify(f, &base, &doc)
             } else {
                 (f.name.to_string(), doc.clone())
             };
             // unlisted classes: report a minimal document (first three per feature)
-            let shrunk = if sig == f.name && shrunk_per_feature[fi] < 3 {
+            let (sig, shrunk) = if sig == f.name && shrunk_per_feature[fi] < 200 {
                 shrunk_per_feature[fi] += 1;
-                shrink(f, &base, &shrunk)
+                let small = shrink(f, &base, &shrunk);
+                // the class is read off the minimal document (a long document can hide the line that matters)
+                let (sig2, _) = classify(f, &base, &small);
+                (sig2, small)
             } else {
-                shrunk
+                (sig, shrunk)
             };
             let detail = differs(f, &base, &shrunk).ok().flatten().unwrap_or_else(|| "differs".into());
             rep.count(&format!("fail-sig/{}", sig));
